@@ -301,6 +301,9 @@ func Explore[S any](t *testing.T, c Check[S]) {
 	var firstHash string
 	for batch := 0; time.Now().Before(deadline) && st.Violation == nil && !(oneBatch && batch > 0); batch++ {
 		batchSeed := SplitMix(workerSeed+uint64(batch)) | 1
+		if v := os.Getenv("VERIF_BATCH_SEED"); v != "" && oneBatch {
+			batchSeed, _ = strconv.ParseUint(v, 10, 64) // re-run one batch rapid complained about
+		}
 		_ = flag.Set("rapid.seed", strconv.FormatUint(batchSeed, 10))
 		if len(st.BatchSeeds) < 8 {
 			st.BatchSeeds = append(st.BatchSeeds, batchSeed)
